@@ -5,18 +5,24 @@ Generator : (1) PRODUCT - the complete documented spelling table ({"",o,out,1} x
             suffix and prefix form) x stage kind {external helper `vtag`, threaded callable alias, @unthreadable
             callable alias (single stage only)} x position {only, first, middle, last} x neighbour kind x
             $THREAD_SUBPROCS x capture form {bare, ![ ], $[ ], $( ), !( )} x target state {missing, existing,
-            in a missing directory, read-only}.  Enumerated completely in the thorough tier, a seeded sample of
-            operator groups in quick.  (2) GENERATED - Hypothesis-drawn pipelines of 1-3 stages with 0-3
-            redirects per stage (compatible and conflicting), whitespace variants (`> f`, `>f`, `>  f`, tab),
-            targets written plain / quoted / @() / $VAR / "$VAR", plus a fixed list of malformed operators.
+            in a missing directory, read-only}, and every ordered PAIR of the 11 operator classes on one stage
+            x kind x position x capture form.  Enumerated completely in the thorough tier, a seeded sample in
+            quick.  (2) GENERATED - Hypothesis-drawn pipelines of 1-3 stages with 0-3 redirects per stage
+            (a "compatible" mode that fills each of stdin/stdout/stderr at most once, and a free, mostly
+            conflicting mode), whitespace variants (`> f`, `>f`, `>  f`, tab), targets written plain / quoted /
+            @() / $VAR / "$VAR", target names that are operator parts (`p`, `out`, `2` ...), plus a fixed list of
+            malformed operators x kind x capture form.
 Oracle    : a routing model written from docs/tutorial.rst "Input/Output Redirection" (not from specs.py):
             stage i writes `O<i>` to stdout and `E<i>` to stderr, stages that read stdin echo every line as
             `I<i>:<line>`.  After the run every tagged line must be found exactly once, and only, in the place the
             operators say: target file (`>` truncated, `>>` previous content kept in front), the next stage's
             stdin (visible through the echo), the capture value ($() string, !().out / .err) or the terminal.
-            Conflicts / malformed operators / unopenable targets must raise XonshError or SyntaxError, deliver
-            nothing, and leave every target as it was.  All spellings of one operator must give the same
-            observation (metamorphic, compared inside each product group).
+            Conflicts / malformed operators / unopenable targets must raise XonshError or SyntaxError and deliver
+            nothing; `>>`/`<` targets and unrelated files must keep their content (see STRICT_UNTOUCHED for
+            created-empty / truncated `>` targets).  All spellings of one operator must give the same observation
+            (metamorphic, compared inside each product group).  Where the tutorial leaves two readings open both
+            are accepted (see model()).  A failure is reported only when it reproduces on re-execution; the exact
+            symptoms of recorded findings are predicted by the model (defects=...) and attributed narrowly.
 Terminal  : "the terminal" is file descriptor 1 (stdout) and 2 (stderr) of the xonsh process.  Around every
             execution two O_APPEND temp files are dup2'ed onto fds 1 and 2 and sys.stdout / sys.stderr are
             replaced by write-through text wrappers over those same fds, so output of real children (inherited
@@ -47,9 +53,9 @@ LEVEL = "exploration"
 HOOKS = False
 RULE = ("(1) product: documented redirect spelling x stage kind (external / threaded alias / unthreadable alias) x pipeline "
         "position x neighbour kind x $THREAD_SUBPROCS x capture form x target state, and every ordered pair of operator classes on "
-        "one stage x kind x position x capture form; complete in thorough, seeded sample in quick; (2) generated pipelines of 1-3 stages with 0-3 redirects per stage, whitespace and target-form "
-        "variants, malformed operators; every case has >= 1 redirect or pipe, non-trivial = every case; distinct = hash of the "
-        "case (rendered source + configuration)")
+        "one stage x kind x position x capture form; complete in thorough, seeded sample in quick; (2) generated pipelines of 1-3 "
+        "stages with 0-3 redirects per stage, whitespace and target-form variants, malformed operators; every case has >= 1 redirect "
+        "or pipe, non-trivial = every case; distinct = hash of the case (rendered source + configuration)")
 
 HANG_S = 10
 MAX_HANGS = 4          # per worker; afterwards the worker's remaining cases are counted as inconclusive
